@@ -50,7 +50,7 @@ pub struct Step {
     pub file: usize, // which uri
 }
 
-fn gen_history(rng: &mut Rng, max_len: usize, allow_replace: bool) -> Vec<Step> {
+fn gen_history(rng: &mut Rng, max_len: usize, allow_replace: bool, pool: &[String]) -> Vec<Step> {
     let n = rng.range(1, max_len);
     let mut h: Vec<Step> = Vec::new();
     let base_level = LEVELS[rng.below(8)];
@@ -74,7 +74,7 @@ fn gen_history(rng: &mut Rng, max_len: usize, allow_replace: bool) -> Vec<Step> 
             }
             5 | 6 => tgen::soup(rng, tgen::LUA_VOCAB, 10, 0),
             7 => tgen::soup(rng, tgen::DOC_VOCAB, 10, 0),
-            8 => tgen::text(rng, 10).0,
+            8 => if rng.chance(1, 2) { tgen::text(rng, 10).0 } else { pool[rng.below(pool.len())].clone() },
             _ => (*rng.pick(SNIPPETS)).to_string(),
         };
         let level = if rng.chance(1, 5) { LEVELS[rng.below(8)] } else { base_level };
@@ -208,8 +208,13 @@ pub fn run(args: &Args, report: &mut Report) {
         histories.push(h);
     } else {
         let n = if args.thorough() { 6000 } else { 400 };
+        // structured families shared with C01: rare prefixes (BOM, shebang, NUL …), every doc-tag line in
+        // several contexts, nestings around the syntax-level limit with comments inside
+        let mut pool = crate::c01::prefix_family(false);
+        pool.extend(crate::c01::doc_family(false));
+        pool.extend(crate::c01::limit_ladders(false).into_iter().step_by(9));
         for i in 0..n {
-            histories.push(gen_history(&mut rng, 8, i % 3 == 2));
+            histories.push(gen_history(&mut rng, 8, i % 3 == 2, &pool));
         }
         if args.thorough() {
             let pool = ["local a = 1\n", "local a = 1\nlocal a = 1\n", "print(a)\n", "local a = 1\nprint(a)\n", "x x x x", "---@class A\nlocal a = 1\n"];
